@@ -4,7 +4,7 @@ import ast
 
 from ..model import AnalysisError, norm_text
 from ..terms import children
-from .common import base_name, construct_of, deep_terms, is_numpy_callable, loc_of, project
+from .common import base_name, construct_of, deep_terms, is_numpy_callable, loc_of, project, resolve_callee
 
 
 def _has_kwargs(fnode):
@@ -412,3 +412,69 @@ def positional_selection(ctx, world):
             txt = norm_text(bad.node)[:60] if bad.node is not None else str(bad)[:60]
             ctx.fail("A2.position", inst, f"{e.mode}:{e.prim_id}|operand-identity", e.loc, f"the rule decides with `{txt}`, a comparison of two operand VALUES, which slot it differentiates: every position holding the same object is selected", "the primitive called with the same array in two positions (concatenate((x, x)), vstack((X, X))) or with a constant that is the evaluation point itself")
     ctx.floor("A2.position variadic rules", n, 4)
+
+
+def forwarded_defaults(ctx, world):
+    """A2.fwd - a rule that hands the primitive's own remaining arguments (*args, **kwargs) on to ANOTHER NumPy
+    function binds them by position and by name in that function's signature.  Whatever the caller left at its
+    default is defaulted by the callee instead: the two signatures have to agree on the name and the default of every
+    parameter that can be reached that way (rfft2(x) forwards to irfft2, whose axes default is (-2, -1) too; irfftn's
+    is None = all axes)."""
+    from ..terms import walk as _walk
+    from ..tutil import expand, unseq
+
+    ctx.describe("A2.fwd", "where a rule forwards the primitive's remaining positional arguments and keywords (*args, **kwargs) to another NumPy function, every forwarded position has the same parameter name in both signatures and every parameter the two signatures share has the same default (NumPy's real signatures, by introspection)")
+    n = 0
+    for e in world.table.entries:
+        if e.spec != "maker" or not world.in_numpy_scope(e) or not is_numpy_callable(e.prim):
+            continue
+        psig = world.env.signature(e.prim.qual)
+        if not psig:
+            continue
+        ir = world.ir(e)
+        if ir is None or not ir.ok:
+            continue
+        seen_calls = []
+        for root in (ir.made, ir.result):
+            if root is None:
+                continue
+            for t in _walk(unseq(expand(world.ev, root, ()))):
+                if t.op != "call" or any(t is c for c in seen_calls):
+                    continue
+                stars = [(i, a) for i, a in enumerate(t.args) if a.op == "star" and a.x.op == "rest"]
+                fwd_kw = any(d.op == "kwrest" for d in t.get("dstar", []))
+                if not stars and not fwd_kw:
+                    continue
+                ref, pre = resolve_callee(world.ev, t)
+                if ref is None or not is_numpy_callable(ref) or ref.qual == e.prim.qual:
+                    continue
+                qsig = world.env.signature(ref.qual)
+                if not qsig:
+                    continue
+                seen_calls.append(t)
+                n += 1
+                inst = f"{construct_of(e)} -> {base_name(ref)}"
+                bad = None
+                npre = len(pre)
+                for i, a in stars:
+                    # P's positional index k >= start arrives at Q's positional index (npre + i) + (k - start)
+                    for k in range(a.x.start, len(psig["pos"])):
+                        j = npre + i + (k - a.x.start)
+                        pn = psig["pos"][k]
+                        if j >= len(qsig["pos"]):
+                            break
+                        qn = qsig["pos"][j]
+                        if pn != qn and bad is None:
+                            bad = f"positional argument {k} (`{pn}`) of {base_name(e.prim)} arrives as `{qn}` of {base_name(ref)}"
+                if fwd_kw or stars:
+                    for pn in psig["pos"] + psig["kwonly"]:
+                        if pn in (qsig["pos"] + qsig["kwonly"]) and pn in psig["defaults"] and pn in qsig["defaults"]:
+                            dp, dq = psig["defaults"][pn], qsig["defaults"][pn]
+                            same = (dp is dq) or (type(dp) is type(dq) and repr(dp) == repr(dq))
+                            if not same and bad is None:
+                                bad = f"`{pn}` defaults to {dp!r} in {base_name(e.prim)} but to {dq!r} in {base_name(ref)}: a caller who leaves it out gets the callee's default"
+                if bad is None:
+                    ctx.ob("A2.fwd", inst, True, e.loc)
+                else:
+                    ctx.fail("A2.fwd", inst, f"{e.mode}:{e.prim_id}|fwd:{base_name(ref)}", e.loc, f"the rule forwards (*args, **kwargs) of {base_name(e.prim)} to {base_name(ref)}, but {bad}", f"{base_name(e.prim)} called with the affected parameter left at its default on an input where the two defaults differ (e.g. a stack of 2-D signals for rfft2)")
+    ctx.floor("A2.fwd forwarding calls", n, 4)
